@@ -254,7 +254,7 @@ def run(ck):
         ck.correspondence_broken("scratch-module", err)
         return ck.finish()
 
-    n, nbig, ntyped = {"quick": (140, 2, 40), "thorough": (4000, 60, 400)}[ck.tier]
+    n, nbig, ntyped = {"quick": (140, 2, 40), "thorough": (2500, 40, 400)}[ck.tier]
     nheavy = {"quick": 3, "thorough": 60}[ck.tier]
     jobs = [("random", os.path.join(ck.work, "ctl.jsonl"), {"VERIF_N": str(n), "VERIF_NBIG": str(nbig), "VERIF_NHEAVY": str(nheavy)}),
             ("typed", os.path.join(ck.work, "typed.jsonl"), {"VERIF_N": str(ntyped)}),
@@ -319,7 +319,11 @@ def run(ck):
     # balance the 16 parallel coqc shards: longest histories first, each into the lightest shard
     # that still has room (coq_mismatches cuts the list into consecutive runs of shard_n cases)
     order = sorted(range(len(hists)), key=lambda i: -len(hists[i]["ops"]))
-    shard_n = max(1, (len(order) + 15) // 16)
+    # 16 coqc run at a time; a shard should stay below ~9000 operations (a few minutes even on a busy
+    # machine, vlib kills a shard after 30 min), so large tiers use several rounds of 16 shards
+    total_ops = sum(len(h["ops"]) for h in hists)
+    want = 16 * max(1, -(-total_ops // (16 * 9000)))
+    shard_n = max(1, -(-len(order) // want))
     nbins = max(1, (len(order) + shard_n - 1) // shard_n)
     caps = [shard_n] * (nbins - 1) + [len(order) - shard_n * (nbins - 1)]
     bins, load = [[] for _ in range(nbins)], [0] * nbins
